@@ -36,6 +36,8 @@ def strategy(draw, tier="quick"):
             "offset": draw(st.sampled_from([0.0, 0.0, 5.0, 60.0, 500.0])), "seed": draw(st.integers(0, 2 ** 32 - 1)),
             "frame": draw(st.integers(0, nf - 1)), "parallel": draw(st.booleans()), "precentered": draw(st.integers(0, 4)) == 0,
             "sel": draw(st.sampled_from(["none", "none", "equal", "different", "permuted", "different-unsorted"]))}
+    if case["precentered"] and draw(st.booleans()):
+        case["recentre"] = True
     return case
 
 
@@ -190,17 +192,26 @@ def run_case(case):
             kw["ref_atom_indices"] = rai
         pre = case["precentered"] and ai is None
         tgt, ref = fresh(), fresh()
+        pre_x = 4 * case["scale"]
         if pre:
             tgt.center_coordinates()
             ref.center_coordinates()
             labels.append("precentered")
+            if case.get("recentre"):
+                # the frames drift apart after the first centring (edited in place, as imaging / wrapping utilities do) and are
+                # centred again before the precentered call
+                for k in range(nf):
+                    tgt.xyz[k] += (np.array([0.5, -0.3, 0.2]) * (k + 1) * case["scale"]).astype(np.float32)
+                tgt.center_coordinates()
+                pre_x = 8 * case["scale"]
+                labels.append("edited-in-place-and-centred-again")
         got = md.rmsd(tgt, ref, f, parallel=case["parallel"], precentered=pre, **kw)
         if got.shape != (nf,):
             viol.append(("rmsd/shape", str(got.shape)))
         else:
             for k in range(nf):
                 r, _R, S = refs[k]
-                if not np.isfinite(got[k]) or abs(got[k] - r) > _tol(r, S, xmax if not pre else 4 * case["scale"], c):
+                if not np.isfinite(got[k]) or abs(got[k] - r) > _tol(r, S, xmax if not pre else pre_x, c):
                     viol.append(("rmsd/value", "frame %d: md.rmsd=%.7g, Kabsch minimum %.7g (tol %.3g, N=%d)" % (k, got[k], r, _tol(r, S, xmax, c), n)))
                     break
         # parallel flag: bit-identical
